@@ -341,3 +341,9 @@ class ParametricModelBaseMixin(object):
         # flag: recalculate the model values next time they are requested
         self._pm_calculation_stale = True
         self._clear_total_error_cache()  # declared in the container class
+
+    def get_total_error(self, *args, **kwargs):
+        # errors relative to the model need up-to-date model values as their reference
+        if self._pm_calculation_stale:
+            self._recalculate()
+        return super(ParametricModelBaseMixin, self).get_total_error(*args, **kwargs)
